@@ -298,6 +298,19 @@ func judgeNonTerm(col *evid.Collector, s ntScript, hardKill time.Duration) {
 			return
 		}
 	}
+	// the only wall-clock oracle of the suite: an overrun must reproduce (a
+	// loaded machine can delay one child, not three in a row)
+	for try := 0; o.Overran && try < 2; try++ {
+		col.Inc("nonterm_overrun_retries")
+		o2 := runInChild(childJob{Script: s.Script, TimeoutS: hookTimeoutS, NeedRepo: s.NeedRepo}, hardKill)
+		if o2.ChildFail != "" && !o2.Overran {
+			break
+		}
+		if !o2.Overran {
+			col.Class("nonterm/%s/overran-once-not-reproduced", s.Kind)
+			o = o2
+		}
+	}
 	col.Inc("evaluations")
 	col.Inc("traces_validated_against_impl")
 	col.Inc("nonterm_scripts")
